@@ -65,7 +65,7 @@ pub fn run(ctx: &mut Ctx) {
         ("-G", -g),
         ("3G", g.double() + g),
     ];
-    let n_rand = if ctx.quick() { 3 } else { 10 };
+    let n_rand = if crate::small(ctx) { 3 * crate::extra(ctx) } else { 10 };
     for _ in 0..n_rand {
         ops.push(("random", K256::random(&mut rng)));
     }
@@ -188,10 +188,10 @@ pub fn run(ctx: &mut Ctx) {
         scal.push((name, <Fq as Reduce<k256::U256>>::reduce_bytes(&fb)));
     }
     let mut srng = ctx.rng("k256-scalars");
-    for _ in 0..(if ctx.quick() { 2 } else { 8 }) {
+    for _ in 0..(if crate::small(ctx) { 2 } else { 8 }) {
         scal.push(("random", Fq::random(&mut srng)));
     }
-    for (_, x) in ops.iter().step_by(if ctx.quick() { 2 } else { 1 }) {
+    for (_, x) in ops.iter().step_by(if crate::small(ctx) { 2 } else { 1 }) {
         let xw = p_wp(x);
         let xt = big::tok_w(&xw);
         for (sname, s) in &scal {
@@ -207,7 +207,7 @@ pub fn run(ctx: &mut Ctx) {
         }
     }
     // sums, batch normalisation
-    for (i, len) in (if ctx.quick() { vec![0usize, 1, 2, 5] } else { vec![0, 1, 2, 3, 9, 20] }).iter().enumerate() {
+    for (i, len) in (if crate::small(ctx) { vec![0usize, 1, 2, 5] } else { vec![0, 1, 2, 3, 9, 20] }).iter().enumerate() {
         let mut r = ctx.rng(&format!("k256-sum-{i}"));
         let pts: Vec<K256> = (0..*len).map(|_| ops[(r.next_u32() as usize) % ops.len()].1).collect();
         let toks: Vec<String> = pts.iter().map(|q| big::tok_w(&p_wp(q))).collect();
@@ -271,8 +271,8 @@ pub fn run(ctx: &mut Ctx) {
         dec(ctx, "valid", &b);
         valid.push(b);
     }
-    for src in valid.iter().skip(1).take(if ctx.quick() { 2 } else { 6 }) {
-        let bits: Vec<usize> = if ctx.quick() { vec![0, 1, 5, 6, 7, 8, 9, 100, 262, 263] } else { (0..264).collect() };
+    for src in valid.iter().skip(1).take(if crate::small(ctx) { 2 } else { 6 }) {
+        let bits: Vec<usize> = if crate::small(ctx) { vec![0, 1, 5, 6, 7, 8, 9, 100, 262, 263] } else { (0..264).collect() };
         for bit in bits {
             let mut c = *src;
             c[bit / 8] ^= 0x80 >> (bit % 8);
@@ -288,7 +288,7 @@ pub fn run(ctx: &mut Ctx) {
         }
     }
     let mut r = ctx.rng("k256-random-bytes");
-    for _ in 0..(if ctx.quick() { 40 } else { 1500 }) {
+    for _ in 0..(if crate::small(ctx) { 40 } else { 1500 }) {
         let mut b = [0u8; 33];
         r.fill_bytes(&mut b);
         dec(ctx, "random-bytes", &b);
